@@ -175,8 +175,9 @@ Definition spec_key_tag (fl : ctor_flags) (sd : sdecl) (p : path) : string :=
   if String.eqb t "" then tag_trans (fl_tagcase fl) (last p "") else t.
 
 (* ------------------------------------------------------------------ guards *)
-(* exported fields keep their name under Pascal-casing (the shadow struct declares Pascal(F), the literal says F:
-   finding K_json_exported_snake) *)
+(* exported fields keep their name under Pascal-casing.  No longer part of the guard: the template used to name the
+   shadow-struct field F instead of Pascal(F) (finding K_json_exported_snake, repaired in /repo d93a0ce); kept as a
+   vocabulary item for the regression example *)
 Definition exported_names_pascal (pkg : pkg_spec) (fuel : nat) (sd : sdecl) : bool :=
   forallb (fun p => let n := last p "" in negb (is_exported n) || String.eqb (to_pascal_case n) n)
           (selectable_leaves pkg fuel sd).
@@ -202,7 +203,7 @@ Definition json_keys_ok (jd : json_data) : bool :=
   nodup_str ks && forallb (fun k => negb (String.eqb k "")) ks.
 
 Definition c11_guard (pkg : pkg_spec) (fl : ctor_flags) (fuel : nat) (sd : sdecl) : bool :=
-  c03_guard pkg fl fuel sd && exported_names_pascal pkg fuel sd && no_promoted_json_tags pkg fuel sd && plain_json_tags sd.
+  c03_guard pkg fl fuel sd && no_promoted_json_tags pkg fuel sd && plain_json_tags sd.
 
 (* ------------------------------------------------ guards of the round-trip theorem *)
 Definition json_path (pkg : pkg_spec) (fuel : nat) (sd : sdecl) (f : ident) : path :=
